@@ -25,16 +25,17 @@ CONSTANTS MaxN,        \* vti: shapes (1..MaxN)^3
           MaxC,        \* vti: component counts 0 (plain 3-D array) .. MaxC
           FullN,       \* stl: every mask on every shape (1..FullN)^3
           SampleK,     \* stl: on the shapes in SampleShapes all masks with <= SampleK filled or <= SampleK empty voxels
-          SampleSet,   \* "q" | "t"
+          SampleSet,   \* "n" (no sample shapes) | "q" | "t"
           Variant,
           AssertFaceConnectedSuffices
 
 VARIABLES kind, stage, shp, nc, orig, flat, parsed, F, sc, tris, ltris
 vars == << kind, stage, shp, nc, orig, flat, parsed, F, sc, tris, ltris >>
 
-SampleShapes == IF SampleSet = "q" THEN { <<3, 3, 2>> }
+SampleShapes == IF SampleSet = "n" THEN { }
+                ELSE IF SampleSet = "q" THEN { <<3, 3, 2>> }
                 ELSE { <<3, 3, 2>>, <<3, 2, 2>>, <<2, 3, 3>>, <<3, 1, 3>>, <<1, 3, 2>>, <<3, 3, 3>> }
-Scales == { <<1, 1, 1>>, <<2, 3, 4>> }
+Scales == IF SampleSet = "t" THEN { <<1, 1, 1>>, <<2, 3, 4>> } ELSE { <<2, 3, 4>> }       \* voxel sizes
 RECURSIVE SmallSets(_, _)
 SmallSets(S, k) == IF k = 0 THEN { {} } ELSE LET r == SmallSets(S, k - 1) IN r \cup { x \cup {a} : x \in r, a \in S }
 Masks(s) == IF s \in SampleShapes
